@@ -103,6 +103,7 @@ static void note(void *p, size_t size, void *site) {
 }
 
 /* returns 1 if the block was live, 0 if unknown to us, -1 if it had been released already */
+static size_t last_size; static void *last_site;     /* of the block just forgotten (valid under the caller's use right after forget() == 1, single consumer: free) */
 static int forget(void *p) {
     int r = 0;
     pthread_mutex_lock(&mu);
@@ -110,7 +111,7 @@ static int forget(void *p) {
     for (unsigned i = 0; i < TAB_SIZE; i++) {
         struct ent *e = &tab[(h + i) & (TAB_SIZE - 1)];
         if (e->st == EMPTY) break;
-        if (e->ptr == p) { if (e->st == LIVE) { e->st = FREED; r = 1; } else r = -1; break; }
+        if (e->ptr == p) { if (e->st == LIVE) { e->st = FREED; r = 1; last_size = e->size; last_site = e->site; } else r = -1; break; }
     }
     pthread_mutex_unlock(&mu);
     return r;
@@ -134,13 +135,53 @@ void *realloc(void *old, size_t n) {
     if (p) note(p, n, __builtin_return_address(0)); else if (old && n) note(old, 0, __builtin_return_address(0));
     return p;
 }
+/* ---- quarantine ($VERIF_ALLOC_QUARANTINE=1): a block that was allocated from a call site in the library under test is not handed back to
+ * the allocator when it is freed: it is filled with 0xA5 and parked (4 MiB / 2048 blocks, oldest leave first).  Its address is therefore not
+ * re-used by the next allocation of that size, a stale pointer reads garbage, and a WRITE through a stale pointer is seen: at every report and
+ * when a block leaves the quarantine the fill is verified   ->   allocerr<TAB>write-after-free<TAB><site that allocated the block> */
+#define QMAX 2048
+#define QBYTES (4u << 20)
+static struct { void *p; size_t n; void *site; } quar[QMAX];
+static unsigned qhead, qcount; static size_t qbytes; static int quarantine = -1;
+
+static int in_target(void *site) {
+    Dl_info di; const char *want = getenv("VERIF_ALLOC_OBJ"); if (!want) want = "lib-prod";
+    return site && dladdr(site, &di) && di.dli_fname && strstr(di.dli_fname, want);
+}
+static void q_verify(unsigned i) {
+    unsigned char *b = quar[i].p;
+    for (size_t k = 0; k < quar[i].n; k++) if (b[k] != 0xA5) {
+        char m[256] = "allocerr\twrite-after-free\t"; fmt_site(m + strlen(m), 200, quar[i].site); strcat(m, "\n"); wr(rec_fd(), m);
+        memset(b, 0xA5, quar[i].n);
+        break;
+    }
+}
+static void q_verify_all(void) { pthread_mutex_lock(&mu); for (unsigned k = 0; k < qcount; k++) q_verify((qhead + k) % QMAX); pthread_mutex_unlock(&mu); }
+static int q_park(void *p, size_t n, void *site) {
+    if (quarantine < 0) { const char *e = getenv("VERIF_ALLOC_QUARANTINE"); quarantine = e && *e == '1'; }
+    if (!quarantine || n == 0 || n > QBYTES / 4 || !in_target(site)) return 0;
+    pthread_mutex_lock(&mu);
+    while (qcount == QMAX || (qcount && qbytes + n > QBYTES)) {
+        q_verify(qhead); void *old = quar[qhead].p; qbytes -= quar[qhead].n; qhead = (qhead + 1) % QMAX; qcount--;
+        if (r_free) r_free(old);
+    }
+    memset(p, 0xA5, n);
+    unsigned at = (qhead + qcount) % QMAX; quar[at].p = p; quar[at].n = n; quar[at].site = site; qcount++; qbytes += n;
+    pthread_mutex_unlock(&mu);
+    return 1;
+}
+
 void free(void *p) {
     if (!p || in_boot(p)) return;
     resolve();
-    if (forget(p) < 0) {
+    pthread_mutex_lock(&mu);
+    int r = forget(p); size_t n = last_size; void *site = last_site;
+    pthread_mutex_unlock(&mu);
+    if (r < 0) {
         char b[256] = "allocerr\tdouble-free\t"; fmt_site(b + strlen(b), 200, __builtin_return_address(0)); strcat(b, "\n"); wr(rec_fd(), b);
         return;                                   /* keep the process alive so that the report is complete */
     }
+    if (r == 1 && q_park(p, n, site)) return;
     if (r_free) r_free(p);
 }
 int posix_memalign(void **out, size_t al, size_t n) { resolve(); int r = r_posix_memalign(out, al, n); if (!r) note(*out, n, __builtin_return_address(0)); return r; }
@@ -172,6 +213,7 @@ static void add_agg(struct agg *a, int *n, const char *name, size_t bytes) {
 static void dump(void) {
     int fd = rec_fd();
     if (fd < 0) return;
+    q_verify_all();
     const char *want = getenv("VERIF_ALLOC_OBJ"); if (!want) want = "lib-prod";
     static struct agg lib[MAXAGG], oth[MAXAGG];
     int nl = 0, no = 0; unsigned long live = 0, bytes = 0;
